@@ -72,6 +72,39 @@ def parse_number_rule(chk, P):
         chk.require(rows == want, "TAB", "TAB:parse_number:radix-and-prefix", str(rows), "literal kinds are converted as %s, expected %s" % (rows, want), "%s:%d" % (pn.file, pn.line))
 
 
+def operand_evaluation_rule(chk, P):
+    """Strict evaluation: every operand of a unary / binary node is evaluated exactly once, left before right, on every
+    path (no short-circuit); function nodes go through the table (shared with C17: a draw inside an operand is
+    made exactly when the expression is evaluated)."""
+    ev = P.body("expr::Expr::eval")
+    if chk.anchor("Expr::eval", ev):
+        rows = {}
+        for pi in tab.paths(P, ev, to_return_only=True):
+            v = [d[2] for d in pi.decisions() if d[0] == "variant" and d[1] == "self"]
+            if not v:
+                continue
+            if any(d[0] == "variant" and d[2] == ("Break",) for d in pi.decisions()):
+                continue
+            evals = tuple(canon(a[0]) for bb, nm, a in pi.calls() if nm == "expr::Expr::eval")
+            rows.setdefault(v[0], set()).add((evals, canon(pi.ret())))
+        want = {("Number",): {((), "Result::Ok{0: (self as Number).0}")},
+                ("UnaryOp",): {((("(self as UnaryOp).expr"),), "Result::Ok{0: UnaryOp::eval((self as UnaryOp).op, try(Expr::eval((self as UnaryOp).expr, ctx)))}")},
+                ("BinOp",): {(("(self as BinOp).left", "(self as BinOp).right"), "BinOp::eval((self as BinOp).op, try(Expr::eval((self as BinOp).left, ctx)), try(Expr::eval((self as BinOp).right, ctx)))")}}
+        unwrap = lambda r: r[len("Result::Ok{0: "):-1] if r.startswith("Result::Ok{0: ") and r.endswith("}") else r
+        for k, w in want.items():
+            g = set((e, unwrap(r)) for e, r in rows.get(k, set()))
+            w = set((e, unwrap(r)) for e, r in w)
+            chk.require(g == w, "CNT", "CNT:Expr::eval:%s" % k[0], "operands evaluated once, left before right", "Expr::%s evaluates as %s" % (k[0], sorted(g, key=str)))
+        fr = [r for e, r in rows.get(("Func",), set())]
+        chk.require(bool(fr) and all(re.fullmatch(r"\(Option::expect\(FuncTable::get\(.*, \(self as Func\)\.name\), '[^']*'\)\.f\)\(ctx, Deref::deref\(\(self as Func\)\.args\)\)|\(Option::expect\(FuncTable::get\(.*, \(self as Func\)\.name\), '[^']*'\)\.f\)\(ctx, \(self as Func\)\.args\)", r) for r in fr), "ORG", "ORG:Expr::eval:Func-dispatch", "(FUNC_TABLE.get(name).f)(ctx, args)", "Expr::Func dispatches as %s" % fr)
+    fg = P.body("expr::FuncTable::get")
+    if chk.anchor("FuncTable::get", fg):
+        r = set(canon(P.sl(fg).ret(rb)) for rb in P.cfg(fg).return_blocks())
+        cl = P.body(fg.name + "::{closure#0}")
+        pt = tab.predicate_table(P, cl) if cl else set()
+        chk.require(r == {"Iterator::find([T]::iter(self.entries), closure({closure#0}))"} and pt == {(frozenset(), "PartialEq<&B> for &A>::eq(elem([T]::iter(self.entries)).name, name)")}, "TAB", "TAB:FuncTable::get:by-name", "entries.iter().find(|e| e.name == name)", "FuncTable::get is %s / %s" % (r, sorted(pt, key=str)))
+
+
 def run(chk, ctx):
     P = Prog(ctx["facts"])
     chk.explanation = ("C08 decided clause by clause: LEX+TAB (operator spellings: the #[token] literal of each operator kind composed with From<TokenKind> for BinOp/UnaryOp), TAB (precedence compared as an ordered partition, so renumbering is not an alarm), "
@@ -216,33 +249,7 @@ def run(chk, ctx):
             asserts = [b.term(bb)["msg"]["ak"] + "(%s)" % b.term(bb)["msg"].get("op", "") for bb in b.reachable_blocks() if b.term(bb)["t"] == "assert" and not b.term(bb)["msg"]["ak"].startswith("UB")]
             chk.require(not asserts, "TAB", "TAB:%s:no-trapping-arithmetic" % fn.split("::")[-2], "no Overflow/Division Assert in the body", "%s contains trapping arithmetic: %s" % (fn, sorted(set(asserts))))
     # 6. evaluation of operands
-    ev = P.body("expr::Expr::eval")
-    if chk.anchor("Expr::eval", ev):
-        rows = {}
-        for pi in tab.paths(P, ev, to_return_only=True):
-            v = [d[2] for d in pi.decisions() if d[0] == "variant" and d[1] == "self"]
-            if not v:
-                continue
-            if any(d[0] == "variant" and d[2] == ("Break",) for d in pi.decisions()):
-                continue
-            evals = tuple(canon(a[0]) for bb, nm, a in pi.calls() if nm == "expr::Expr::eval")
-            rows.setdefault(v[0], set()).add((evals, canon(pi.ret())))
-        want = {("Number",): {((), "Result::Ok{0: (self as Number).0}")},
-                ("UnaryOp",): {((("(self as UnaryOp).expr"),), "Result::Ok{0: UnaryOp::eval((self as UnaryOp).op, try(Expr::eval((self as UnaryOp).expr, ctx)))}")},
-                ("BinOp",): {(("(self as BinOp).left", "(self as BinOp).right"), "BinOp::eval((self as BinOp).op, try(Expr::eval((self as BinOp).left, ctx)), try(Expr::eval((self as BinOp).right, ctx)))")}}
-        unwrap = lambda r: r[len("Result::Ok{0: "):-1] if r.startswith("Result::Ok{0: ") and r.endswith("}") else r
-        for k, w in want.items():
-            g = set((e, unwrap(r)) for e, r in rows.get(k, set()))
-            w = set((e, unwrap(r)) for e, r in w)
-            chk.require(g == w, "CNT", "CNT:Expr::eval:%s" % k[0], "operands evaluated once, left before right", "Expr::%s evaluates as %s" % (k[0], sorted(g, key=str)))
-        fr = [r for e, r in rows.get(("Func",), set())]
-        chk.require(bool(fr) and all(re.fullmatch(r"\(Option::expect\(FuncTable::get\(.*, \(self as Func\)\.name\), '[^']*'\)\.f\)\(ctx, Deref::deref\(\(self as Func\)\.args\)\)|\(Option::expect\(FuncTable::get\(.*, \(self as Func\)\.name\), '[^']*'\)\.f\)\(ctx, \(self as Func\)\.args\)", r) for r in fr), "ORG", "ORG:Expr::eval:Func-dispatch", "(FUNC_TABLE.get(name).f)(ctx, args)", "Expr::Func dispatches as %s" % fr)
-    fg = P.body("expr::FuncTable::get")
-    if chk.anchor("FuncTable::get", fg):
-        r = set(canon(P.sl(fg).ret(rb)) for rb in P.cfg(fg).return_blocks())
-        cl = P.body(fg.name + "::{closure#0}")
-        pt = tab.predicate_table(P, cl) if cl else set()
-        chk.require(r == {"Iterator::find([T]::iter(self.entries), closure({closure#0}))"} and pt == {(frozenset(), "PartialEq<&B> for &A>::eq(elem([T]::iter(self.entries)).name, name)")}, "TAB", "TAB:FuncTable::get:by-name", "entries.iter().find(|e| e.name == name)", "FuncTable::get is %s / %s" % (r, sorted(pt, key=str)))
+    operand_evaluation_rule(chk, P)
     # 7. lazy ite
     L = panrules.Lemmas(P, chk)
     tabl = L.func_table() or []
